@@ -56,6 +56,18 @@ CLAIMED = {
         "symbolic evaluation of the conversion code into rational functions + polynomial identity checking",
         "proof",
     ),
+    "C11": (
+        "Decides per clause, for all inputs: the duplicated label list is coherent at every exit (typestate); result "
+        "labels of all 33 Food constructions match the operation table and __mul__ carries the non-ratio operand's labels "
+        "whichever side the ratio is on; nutrient lanes never cross (flow through locals); no operation writes to an "
+        "operand, alias or view; every read of another operand's numbers is preceded on every path by a unit assertion; "
+        "the list and scalar arms of the 16 comparison predicates are propositionally equivalent under all four flag "
+        "settings (truth tables). Not decided: relabelling on integer indexing (run-time key type).",
+        "numpy elementwise semantics; a one-month series compares like its element; include_* == not exclude_*. " + TRUST,
+        "typestate, label-provenance, information-flow, effect and path analyses over the ast; propositional abstraction "
+        "of predicates compared by truth table",
+        "other",
+    ),
 }
 
 NOT_APPLICABLE = {
